@@ -239,11 +239,18 @@ pixman_line_fixed_edge_init (pixman_edge_t *            e,
 	bot = &line->p1;
     }
     
+    /* x saturates: what lies beyond the coordinate range is clipped
+     * against the image anyway.  y must not: an edge whose two ends
+     * saturated to the same row would have dy == 0, which the edge
+     * walker divides by.  Let y wrap around as it always has (the rows
+     * that are rasterised are clamped by the caller), but do so in
+     * unsigned arithmetic, where that is defined.
+     */
     pixman_edge_init (e, n, y,
                       add_offset_saturate (top->x, x_off_fixed),
-                      add_offset_saturate (top->y, y_off_fixed),
+                      (pixman_fixed_t)((uint32_t)top->y + (uint32_t)y_off_fixed),
                       add_offset_saturate (bot->x, x_off_fixed),
-                      add_offset_saturate (bot->y, y_off_fixed));
+                      (pixman_fixed_t)((uint32_t)bot->y + (uint32_t)y_off_fixed));
 }
 
 PIXMAN_EXPORT void
